@@ -97,13 +97,29 @@ def corpus_cases(I):
     expectation written by hand from the Coq statement)"""
     boom = [{"message": "boom"}]
     e_boom = fr("error", payload=boom)
+    n_err = fr("next", payload={"data": None, "errors": boom})
+    single = fr("error", payload={"message": "single object"})
+    xdata = fr("next", payload="xdatax")
+    unhash = ("j", {"type": ["next"]})
     return [
-        ("C13_yields_refuted_null_data / C13_yields_next_in_order_refuted / C13_conforms_refuted", C0, Q0, "none",
-         [ACK, NEXT(None)], {"yielded": [], "fin": "finished"}),
-        ("C13_first_not_ack_invalid_refuted", C0, Q0, "none", [("j", [1, 2])],
-         {"fin": ["other", "AttributeError"], "n_sent": 1}),
-        ("C13_malformed_raises_invalid_refuted", C0, Q0, "none",
-         [ACK, fr("error", payload={"message": "single object"})], {"fin": ["other", "TypeError"]}),
+        ("C13_regression_null_data (errors raised)", C0, Q0, "none", [ACK, NEXT(D1), n_err, NEXT(D1)],
+         {"fin": ["multi", boom, None], "yielded": [D1], "consumed": 3}),
+        ("C13_regression_null_data (null without errors)", C0, Q0, "none", [ACK, NEXT(None)],
+         {"fin": ["invalid", list(NEXT(None))], "yielded": []}),
+        ("C13_regression_null_data (empty errors)", C0, Q0, "none",
+         [ACK, fr("next", payload={"data": None, "errors": []})],
+         {"fin": ["invalid", list(fr("next", payload={"data": None, "errors": []}))]}),
+        ("C13_regression_shape (JSON array first)", C0, Q0, "none", [("j", [1, 2])],
+         {"fin": ["invalid", ["j", [1, 2]]], "n_sent": 1}),
+        ("C13_regression_shape (error payload single object)", C0, Q0, "none", [ACK, single],
+         {"fin": ["invalid", list(single)]}),
+        ("C13_regression_shape (error payload {})", C0, Q0, "none", [ACK, fr("error", payload={})],
+         {"fin": ["invalid", list(fr("error", payload={}))]}),
+        ("C13_regression_shape (next payload string containing data)", C0, Q0, "none", [ACK, NEXT(D1), xdata],
+         {"fin": ["invalid", list(xdata)], "yielded": [D1]}),
+        ("C13_regression_shape (unhashable type)", C0, Q0, "none", [ACK, unhash], {"fin": ["invalid", list(unhash)]}),
+        ("C13_regression_shape (error without payload)", C0, Q0, "none", [ACK, fr("error")],
+         {"fin": ["multi", [], {"type": "error"}]}),
         ("C13_regression_after_complete", C0, Q0, "none",
          [ACK, COMPLETE, NEXT(D1), fr("ping"), fr("error", payload=[{"message": "late"}])],
          {"fin": "finished", "yielded": [], "consumed": 2, "n_sent": 2, "closes": 1}),
@@ -111,9 +127,9 @@ def corpus_cases(I):
          [ACK], {"fin": "finished", "variables": {"t": "2024-01-02T03:04:05", "w": {"at": "2024-01-02T03:04:05"}}}),
         ("C13_regression_empty_object_data", C0, Q0, "none", [ACK, NEXT({}), NEXT(0), NEXT(""), NEXT(D1)],
          {"yielded": [{}, 0, "", D1], "fin": "finished"}),
-        ("C13_guards_satisfiable", {"url": "ws://h/g", "headers": {"X-A": "1", "X-B": "2"}, "origin": "https://o",
-                                    "init_payload": {"token": "t"}, "kw_headers": {"X-B": "over"},
-                                    "kw_other": {"open_timeout": 5}},
+        ("C13_rich_example", {"url": "ws://h/g", "headers": {"X-A": "1", "X-B": "2"}, "origin": "https://o",
+                              "init_payload": {"token": "t"}, "kw_headers": {"X-B": "over"},
+                              "kw_other": {"open_timeout": 5}},
          ("subscription S($a: Int) { count(a: $a) }", "S"), "coq-rich",
          [ACK, NEXT(D1), fr("ping"), fr("pong"), NEXT({"x": 2}), COMPLETE],
          {"yielded": [D1, {"x": 2}], "fin": "finished", "n_sent": 3,
@@ -121,10 +137,6 @@ def corpus_cases(I):
           "variables": {"a": 1, "inp": {"fieldA": 1}, "lst": [{"k": 2}, 3]}}),
         ("C13_error_hypotheses_satisfiable", C0, Q0, "none", [ACK, NEXT(D1), fr("ping"), e_boom, NEXT(D1)],
          {"fin": ["multi", boom, e_boom[1]], "yielded": [D1]}),
-        ("C13_odd_error_empty_multi", C0, Q0, "none", [ACK, fr("error", payload={})],
-         {"fin": ["multi", [], {"type": "error", "payload": {}}]}),
-        ("C13_crash_class_exact_stream (payload of next is a string containing 'data')", C0, Q0, "none",
-         [ACK, NEXT(D1), fr("next", payload="xdatax")], {"fin": ["other", "TypeError"], "yielded": [D1]}),
     ]
 
 
@@ -161,8 +173,7 @@ def corpus(run, I):
             problems = ["model/code differ in " + k for k in problems]
             obs = I.project(tr)
             sub = [x for x in obs["sent"] if isinstance(x, dict) and x.get("type") == "subscribe"]
-            got = {"yielded": obs["yielded"], "fin": tr["fin"] if isinstance(tr["fin"], str) else
-                   (tr["fin"] if tr["fin"][0] == "multi" else tr["fin"][:2]),
+            got = {"yielded": obs["yielded"], "fin": tr["fin"],
                    "n_sent": len(obs["sent"]), "closes": obs["closes"],
                    "consumed": sum(1 for e in tr["events"] if e == "r"),
                    "kwargs": tr["connect"][2] if tr["connect"] else None,
